@@ -20,7 +20,9 @@ EXTENDS Naturals, Sequences, FiniteSets, SequencesExt
 
 SumSeq(s) == FoldLeft(LAMBDA acc, x : acc + x, 0, s)
 MaxSeq(s) == FoldLeft(LAMBDA acc, x : IF x > acc THEN x ELSE acc, 0, s)
-Size(v, a, b, f) == LET w == SubSeq(v, a + 1, b) IN IF f = "sum" THEN SumSeq(w) ELSE MaxSeq(w) * Len(w)
+\* ("last" - the weight of the last value - is not monotone: the negative control of MC_KWindows)
+Size(v, a, b, f) == LET w == SubSeq(v, a + 1, b) IN IF f = "sum" THEN SumSeq(w) ELSE IF f = "padded" THEN MaxSeq(w) * Len(w)
+                                                    ELSE IF w = <<>> THEN 0 ELSE w[Len(w)]
 Max2(x, y) == IF x > y THEN x ELSE y
 
 -----------------------------------------------------------------------------
